@@ -40,7 +40,7 @@ META = {
                     "interpolated strings are lexed atomically (tokens inside {} are not checked by the reference lexer)"],
 }
 
-PREAMBLE = """From DL Require Import Lib.Bytes Model.Lexer Model.DenseGen Generated.C02Tables.
+PREAMBLE = """From DL Require Import Lib.Bytes Model.Lexer Model.DenseGen Model.C02Check Generated.C02Tables.
 Open Scope N_scope.
 Open Scope string_scope.
 Definition mk (m : mode) (h : string) : item := {| imode := m; itext := unhex h |}.
@@ -54,64 +54,10 @@ Definition R_ := mk MRaw.
 Definition N_ (n : N) := mk (MNlRaw n).
 Definition M_ := mk MMerge.
 Definition P_ := mk MSpace "".
-Record tcase := { c_span : N; c_items : option (list item); c_dense : string; c_readable : string; c_ref : string }.
-(* the readable generator writes a separator after the last entry of a multi-line table: a "," directly
-   before a closing brace is dropped on both sides before the comparison *)
-Fixpoint drop_trailing_commas (l : list token) : list token :=
-  match l with
-  | [] => []
-  | x :: l' =>
-    match l' with
-    | y :: _ => if token_eqb x (TSym, [44]) && token_eqb y (TSym, [125]) then drop_trailing_commas l'
-                else x :: drop_trailing_commas l'
-    | [] => [x]
-    end
-  end.
-Definition lexn (s : bytes) : option (list token) := option_map drop_trailing_commas (lex s).
-Definition model_ok (c : tcase) : bool :=
-  match c_items c with
-  | None => true
-  | Some its => bytes_eqb (emit tbl (c_span c) its) (unhex (c_dense c))
-  end.
-Definition lex_dense_ok (c : tcase) : bool :=
-  match lex (unhex (c_ref c)), lex (unhex (c_dense c)) with
-  | Some a, Some b => tokens_eqb a b
-  | _, _ => false
-  end.
-Definition lex_readable_ok (c : tcase) : bool :=
-  match lexn (unhex (c_ref c)), lexn (unhex (c_readable c)) with
-  | Some a, Some b => tokens_eqb a b
-  | _, _ => false
-  end.
-Definition intent_ok (c : tcase) : bool :=
-  match c_items c with
-  | None => true
-  | Some its =>
-    match lex (unhex (c_dense c)), lex (canon its) with
-    | Some a, Some b => tokens_eqb a b
-    | _, _ => false
-    end
-  end.
-Fixpoint first_diff (a b : list token) : string :=
-  match a, b with
-  | x :: a', y :: b' => if token_eqb x y then first_diff a' b'
-                        else ("expected " ++ to_string (show_tokens [x]) ++ "got " ++ to_string (show_tokens [y]))%string
-  | [], [] => "same"
-  | x :: _, [] => ("expected " ++ to_string (show_tokens [x]) ++ "got end")%string
-  | [], y :: _ => ("expected end got " ++ to_string (show_tokens [y]))%string
-  end.
-Definition lex_diff (ref got : string) : string :=
-  match lexn (unhex ref), lexn (unhex got) with
-  | Some a, Some b => first_diff a b
-  | None, _ => "reference does not lex"
-  | _, None => "does not lex"
-  end.
-Definition check_case (c : tcase) : bool := model_ok c && lex_dense_ok c && lex_readable_ok c && intent_ok c.
-Definition diag_case (c : tcase) : string :=
-  ((if model_ok c then "" else "MODEL model=" ++ match c_items c with Some its => tohex (emit tbl (c_span c) its) | None => "" end ++ " ") ++
-   (if lex_dense_ok c then "" else "LEXDENSE " ++ lex_diff (c_ref c) (c_dense c) ++ " ") ++
-   (if lex_readable_ok c then "" else "LEXREADABLE " ++ lex_diff (c_ref c) (c_readable c) ++ " ") ++
-   (if intent_ok c then "" else "INTENT "))%string.
+Definition tc (span : N) (its : option (list item)) (d r f : string) : tcase :=
+  {| c_span := span; c_items := its; c_dense := unhex d; c_readable := unhex r; c_ref := unhex f |}.
+Definition check_case (c : tcase) : bool := C02Check.check_case tbl c.
+Definition diag_case (c : tcase) : string := to_string (diag_bytes tbl c).
 """
 
 MODE_CTOR = {"S": "S_", "B0": "B0", "B1": "B1", "B2": "B2", "B3": "B3", "B4": "B4", "R": "R_", "M": "M_"}
@@ -172,8 +118,63 @@ def parse_cases(out):
 
 
 def case_term(r):
-    return '{| c_span := %d; c_items := %s; c_dense := "%s"; c_readable := "%s"; c_ref := "%s" |}' % (
-        r["span"], items_term(r["items"]), r["dense"], r["readable"], r["ref"])
+    return 'tc %d %s "%s" "%s" "%s"' % (r["span"], items_term(r["items"]), r["dense"], r["readable"], r["ref"])
+
+
+def build_evaluator():
+    """Extract Model/C02Check (instantiated with the generated tables) to OCaml and compile the driver.
+    Cached by the hash of every source involved."""
+    srcs = [os.path.join(C.COQ, "Lib", "Bytes.v"), os.path.join(C.COQ, "Model", "Lexer.v"),
+            os.path.join(C.COQ, "Model", "DenseGen.v"), os.path.join(C.COQ, "Model", "C02Check.v"),
+            T.GENERATED_V, os.path.join(C.COQ, "Extract", "C02Extract.v"),
+            os.path.join(C.ROOT, "vlib", "c02_driver.ml")]
+    h = C.hashlib.sha256()
+    for p in srcs:
+        h.update(open(p, "rb").read())
+    wd = os.path.join(C.WORK, "C02", "extract")
+    exe = os.path.join(wd, "c02_eval_" + h.hexdigest()[:16])
+    if os.path.exists(exe):
+        return exe
+    C.shutil.rmtree(wd, ignore_errors=True)
+    os.makedirs(wd)
+    rc, out = C.sh(["coqc", "-w", "-all", "-Q", C.COQ, "DL", os.path.join(C.COQ, "Extract", "C02Extract.v")], cwd=wd, timeout=600)
+    if rc != 0:
+        raise C.CheckBroken("extraction of the C02 checker failed:\n" + out[-2000:])
+    C.shutil.copy(os.path.join(C.ROOT, "vlib", "c02_driver.ml"), wd)
+    rc, out = C.sh(["ocamlfind", "ocamlopt", "-O2", "-w", "-a", "c02_model.mli", "c02_model.ml", "c02_driver.ml", "-o", exe],
+                   cwd=wd, timeout=600)
+    if rc != 0:
+        raise C.CheckBroken("compiling the extracted C02 checker failed:\n" + out[-2000:])
+    for f in os.listdir(C.COQ + "/Extract"):
+        if not f.endswith(".v"):
+            os.remove(os.path.join(C.COQ, "Extract", f))
+    return exe
+
+
+def eval_extracted(exe, rows):
+    """-> list of (row index, diag) where the extracted check_case is false"""
+    lines = []
+    for i, r in enumerate(rows):
+        lines.append("%d %d %s %s %s %s" % (i, r["span"], r["items"], r["dense"] or "-", r["readable"] or "-", r["ref"] or "-"))
+    shards = [lines[k::C.NPROC] for k in range(C.NPROC)]
+    bad = []
+
+    def one(shard):
+        if not shard:
+            return 0, "done 0\n"
+        return C.sh([exe], input="\n".join(shard) + "\n", timeout=3000)
+    with C.ThreadPoolExecutor(max_workers=C.NPROC) as ex:
+        for shard, (rc, out) in zip(shards, ex.map(one, shards)):
+            done = None
+            for line in out.splitlines():
+                if line.startswith("bad "):
+                    _, cid, diag = (line.split(" ", 2) + [""])[:3]
+                    bad.append((int(cid), diag))
+                elif line.startswith("done "):
+                    done = int(line.split()[1])
+            if rc != 0 or done != len(shard):
+                raise C.CheckBroken("extracted C02 checker failed (rc=%s, %s of %d cases):\n%s" % (rc, done, len(shard), out[-1500:]))
+    return bad
 
 
 def nontrivial(r):
@@ -190,19 +191,31 @@ def text_of(h):
         return h
 
 
-def run_stream(ctx, name, rows, chunk):
-    """evaluate one stream of harness cases in Coq; record statistics and violations"""
+def run_stream(ctx, name, rows, exe, vm_sample):
+    """evaluate one stream of harness cases with the extracted checker (all cases) and by vm_compute inside
+    coqc (a sample: cross-check of the extraction); record statistics and violations"""
     uniq = {}
     for r in rows:
         uniq.setdefault((r["items"], r["span"], r["dense"], r["readable"]), r)
     rows = list(uniq.values())
-    cases = [(i, case_term(r)) for i, r in enumerate(rows)]
-    bad = C.run_coq_cases(ctx.prop, PREAMBLE, cases, chunk=chunk, tag=name.split(":")[0].replace(" ", "_"))
+    bad = eval_extracted(exe, rows)
+    # sample for the in-Coq evaluation: the smallest cases first (cost is proportional to the text size),
+    # plus every case the extracted checker flagged
+    order = sorted(range(len(rows)), key=lambda i: len(rows[i]["dense"]) + len(rows[i]["readable"]))
+    flagged = sorted(set(cid for cid, _ in bad))[:20]
+    pick = sorted(set(order[:vm_sample:1] + flagged))
+    vm_bad = C.run_coq_cases(ctx.prop, PREAMBLE, [(i, case_term(rows[i])) for i in pick], chunk=max(8, len(pick) // C.NPROC + 1),
+                             tag=name.split(":")[0].replace(" ", "_"))
+    bad_ids = set(cid for cid, _ in bad)
+    vm_ids = set(cid for cid, _ in vm_bad)
+    disagree = [i for i in pick if (i in bad_ids) != (i in vm_ids)]
+    ctx.obligation("extracted checker agrees with vm_compute inside coqc on %d sampled cases of stream %r" % (len(pick), name.split(":")[0]),
+                   not disagree, "disagreements at cases %r" % disagree[:5])
     nt = sum(1 for r in rows if nontrivial(r))
     samples = [{"span": r["span"], "dense": text_of(r["dense"])[:200]} for r in rows if nontrivial(r)][:3]
     reparse_bad = [r for r in rows if r["dflag"] not in ("ok", "okp") or r["rflag"] not in ("ok", "okp")]
     ctx.stream(name, len(rows), nt, samples, mismatches=len(bad), reparse_mismatches=len(reparse_bad),
-               modelled=sum(1 for r in rows if r["items"] != "-"))
+               modelled=sum(1 for r in rows if r["items"] != "-"), evaluated_in_coqc=len(pick))
     model_only = []
     for cid, diag in bad:
         r = rows[cid]
@@ -251,21 +264,22 @@ def run(ctx):
         tables, prec, "GENERATED on every run of ./check C02 from `dl-c02 tables` / `dl-c02 prec` (the compiled Rust code)."))
     diffs = T.diff_frozen(tables, prec)
     ctx.cov.setdefault("streams", {})
-    proofs_ok = C.proof_gate(ctx, extra_targets=["Generated/C02Tables.vo"])
+    proofs_ok = C.proof_gate(ctx, extra_targets=["Generated/C02Tables.vo", "Model/C02Check.vo"])
+    exe = build_evaluator()
     ctx.cov["streams"]["tables vs frozen copy"] = dict(evaluations=128 * 128 * 6, distinct_nontrivial=0,
                                                        changed_entries=diffs[:40])
 
     quick = ctx.tier == "quick"
-    n = 260 if quick else 4000
+    n = 400 if quick else 6000
     out = C.harness("dl-c02", ["stream", "--seed", str(ctx.seed), "--n", str(n)], timeout=1800)
     rows = parse_cases(out)
     model_only = run_stream(ctx, "random trees: model of the push automaton vs dense.rs; reference lexer on both generators; darklua parser round trip",
-                            rows, chunk=120 if quick else 400)
+                            rows, exe, 160 if quick else 600)
 
-    out = C.harness("dl-c02", ["pairs"] + ([] if quick else ["--all-spans"]), timeout=1800)
+    out = C.harness("dl-c02", ["pairs", "--all-spans"], timeout=1800)
     rows = parse_cases(out)
     model_only += run_stream(ctx, "adjacent pairs: every ordered pair of 35 expression samples (one per token class) written next to "
-                             "each other in every syntactic position", rows, chunk=60 if quick else 150)
+                             "each other in every syntactic position", rows, exe, 60 if quick else 300)
 
     if model_only and not ctx.violations:
         r, diag = model_only[0]
